@@ -196,7 +196,7 @@ def run(ctx):
     with Patch() as patch, reach(ctx, [transition_fs.pickndrop, transition_fs.move_obstacles, transition_fs.actuate_box]):
         dynmon.install(patch, sink)
         exhaustive(ctx)
-        for state, cat, rng in dyndrive.random_function_sweep(ctx, 'C09sweep', ctx.pick(80, 800)):
+        for state, cat, rng in dyndrive.random_function_sweep(ctx, 'C09sweep', ctx.pick(160, 1600)):
             pass
         ctx.sample('sweep_state', {'state': enc.render(state), 'category': cat})
         goal_histories(ctx, sink, ctx.pick(3, 20), ctx.pick(150, 500))
